@@ -3,7 +3,7 @@ pub fn split_lines(source: &str) -> Vec<Line<'_>> {
         .split_inclusive('\n')
         .map(|line| {
             let content = line.strip_suffix('\n').unwrap_or(line);
-            // Strip trailing inline comments (// ...) but not inside strings
+            // Strip trailing inline comments (// ...)
             let content = strip_inline_comment(content);
             Line {
                 content,
@@ -66,21 +66,12 @@ fn strip_block_comments(s: &str) -> String {
     result
 }
 
-/// Strip trailing `// comment` from a line, respecting string literals.
+/// Strip trailing `// comment` from a line. Ink removes comments before it
+/// parses anything, so quotes in the line have no meaning here.
 fn strip_inline_comment(line: &str) -> &str {
-    let mut in_string = false;
-    let bytes = line.as_bytes();
-    let mut i = 0;
-    while i < bytes.len() {
-        match bytes[i] {
-            b'"' => in_string = !in_string,
-            b'/' if !in_string && i + 1 < bytes.len() && bytes[i + 1] == b'/' => {
-                return line[..i].trim_end();
-            }
-            _ => {}
-        }
-        i += 1;
+    match line.find("//") {
+        Some(start) => line[..start].trim_end(),
+        None => line,
     }
-    line
 }
 
